@@ -719,7 +719,7 @@ def oracle_to_tough2(case, b, before, tmp, order):
                 out.append(V('to-tough2:convertible-not-converted', 'CO2 generator %s:%s became %r' % (snap['block'], snap['name'], g.type), case))
         else:
             if id(g) in listed or id(g) in looked:
-                where = ('list' if id(g) in listed else '') + ('+lookup' if id(g) in looked else '')
+                where = ' and '.join(w for w, c in (('list', id(g) in listed), ('lookup', id(g) in looked)) if c)
                 out.append(V('unsupported-generators-not-deleted',
                              'generator %s:%s of type %r (not a TOUGH2 type) is still in the %s after convert_to_TOUGH2' % (snap['block'], snap['name'], t0, where), case))
     if [id(g) for g in d.generatorlist if id(g) in {id(k) for k in kept}] != [id(g) for g in kept] or \
@@ -863,7 +863,8 @@ def oracle_to_autough2(case, b, before, tmp, order):
     hist = before['hist']
     for key, pk, kind, cls in (('block', 'block', 'block', t2grids.t2block), ('connection', 'con', 'con', t2grids.t2connection)):
         want = request_names([x for x in hist[pk] if isinstance(x, cls)], kind)
-        got = request_names(so.get(key, []), kind)
+        # (bare names may be dropped, as documented; keeping them would not be a loss either)
+        got = request_names([x for x in so.get(key, []) if isinstance(x, cls)], kind)
         if want != got:
             out.append(V('to-autough2:history-changed', '%s history requests %r became short-output requests %r' % (key, want, got), case))
     got = so.get('generator', [])
